@@ -236,11 +236,11 @@ impl<'cmd> Parser<'cmd> {
                             keep_state = self
                                 .flag_subcmd_at
                                 .map(|at| {
+                                    // The number of flags to skip during state recovery was recorded
+                                    // by `parse_short_arg`
+                                    let _ = at;
                                     raw_args
                                         .seek(&mut args_cursor, clap_lex::SeekFrom::Current(-1));
-                                    // Since we are now saving the current state, the number of flags to skip during state recovery should
-                                    // be the current index (`cur_idx`) minus ONE UNIT TO THE LEFT of the starting position.
-                                    self.flag_subcmd_skip = self.cur_idx.get() - at + 1;
                                 })
                                 .is_some();
 
@@ -927,7 +927,10 @@ impl<'cmd> Parser<'cmd> {
             Ok(()),
             "tracking of `flag_subcmd_skip` is off for `{short_arg:?}`"
         );
+        // How many flags of this group have been consumed, counting the skipped ones
+        let mut consumed = skip;
         while let Some(c) = short_arg.next_flag() {
+            consumed += 1;
             let c = match c {
                 Ok(c) => c,
                 Err(rest) => {
@@ -1001,6 +1004,10 @@ impl<'cmd> Parser<'cmd> {
                 let done_short_args = short_arg.is_empty();
                 if done_short_args {
                     self.flag_subcmd_at = None;
+                } else {
+                    // The subcommand revisits this group: it has to skip everything up to and
+                    // including its own flag, wherever in the group that was
+                    self.flag_subcmd_skip = consumed;
                 }
                 Ok(ParseResult::FlagSubCommand(name))
             } else {
